@@ -143,7 +143,17 @@ func (e *Explorer) Prefixes(depth int, body func(c *Ctx)) [][]int {
 			return
 		}
 		i := len(prefix)
-		for alt := 0; alt < c.arity[i]; alt++ {
+		devs := 0
+		for k := 0; k < i; k++ {
+			if c.cost[k] && c.Choices[k] != 0 {
+				devs++
+			}
+		}
+		n := c.arity[i]
+		if c.cost[i] && e.Bound >= 0 && devs+1 > e.Bound {
+			n = 1
+		}
+		for alt := 0; alt < n; alt++ {
 			np := append(append([]int{}, prefix...), alt)
 			rec(np)
 		}
